@@ -65,19 +65,32 @@ def readerStr : ReaderK → String
   | .rdb left size => s!"rdb:{left}:{size}"
   | .notExist => "none"
 
+/-- the hypotheses of the theorems, evaluated on the op (reported as `wf=`) -/
+def sourceWFb (s : Source) : Bool :=
+  s.id1 != [] && s.id1 != qId && s.id2 != [] && s.id2 != qId && decide (1 ≤ s.backlogFirst) &&
+  decide (0 ≤ s.backlogLen) && (!s.backlog || decide (s.masterOff + 1 = s.backlogFirst + s.backlogLen)) &&
+  decide (0 ≤ s.masterOff) && decide (0 < s.snapLen)
+
+def cacheWFb (c : Cache) : Bool :=
+  (match c.aof with | some (l, r) => decide (0 ≤ l ∧ l ≤ r ∧ r ≤ maxInt64) | none => true) &&
+  (match c.rdb with | some (left, size) => decide (0 ≤ left ∧ 0 < size ∧ left ≤ maxInt64) | none => true) &&
+  (match c.rdb, c.aof with | some (left, _), some (l, _) => decide (l = left) | _, _ => true) &&
+  (!(c.runId == [] || c.runId == qId) || (c.rdb.isNone && c.aof.isNone))
+
 def rangeList (start : Int) (n : Nat) : List Int := (List.range n).map (fun (k : Nat) => start + (k : Int))
 
-def handleSync (tag : String) (c : Cache) (tok : Id) (src : Source) (k : Int) (sp : SP) (sb s1 s2 so : Nat) : List String :=
+def handleSync (noFirst : Bool) (tag : String) (c : Cache) (tok : Id) (src : Source) (k : Int) (sp : SP) (sb s1 s2 so : Nat) : List String :=
   let w := world src sb s1 s2 so
   let d : CData := ⟨fun n => w.hist c.runId n, (tok, match c.rdb with | some (l, _) => l | none => 0)⟩
   let ids := [src.id1, src.id2]
   let q0 := c.startPoint ids
   let (rl, rs) := c.getRdb c.runId
   let (gl, gr) := c.getOffsetRange c.runId
-  let qline := s!"{tag} q sp={spStr q0} valid={b01 (c.isValidOffset c.runId sp.offset)} validq={b01 (c.isValidOffset qId sp.offset)} rdb={rl},{rs} range={gl},{gr}"
+  let qline := s!"{tag} q sp={spStr q0} valid={b01 (c.isValidOffset c.runId sp.offset)} validq={b01 (c.isValidOffset qId sp.offset)} rdb={rl},{rs} range={gl},{gr} wf={b01 (sourceWFb src && cacheWFb c)}"
   let r := run w src sp c d
   let m := r.mt
   let mline := s!"{tag} meta br={m.branch} psync={idStr m.ps.reqId}:{m.ps.wireOff} reply={replyStr m.ps.reply} full={b01 m.ps.full} del={b01 m.deleted} rid={idStr m.runId}"
+  let mline := if sourceWFb src && cacheWFb c then mline ++ s!" resets={(if m.ps.full then 1 else 0) + (match r.reader with | .rdb _ _ => 1 | _ => 0)}" else mline
   let ioline := s!"{tag} io writer={writerStr r.writer} reader={readerStr r.reader}"
   -- bytes the source sends after the reply (and snapshot): up to masterOff + K
   let final := src.masterOff + k
@@ -93,12 +106,16 @@ def handleSync (tag : String) (c : Cache) (tok : Id) (src : Source) (k : Int) (s
     | .stream start byte =>
       let total := final - start
       let n := if total < 0 then 0 else if total > 64 then 64 else total.toNat
-      s!"{tag} bytes kind=stream start={start} n={total} first={Hex.encode ((rangeList start n).map byte)}"
+      if noFirst then s!"{tag} bytes kind=stream start={start} n={total}"
+      else s!"{tag} bytes kind=stream start={start} n={total} first={Hex.encode ((rangeList start n).map byte)}"
     | .snapshot tok left size =>
       let n := if size < 0 then 0 else if size > 64 then 64 else size.toNat
-      s!"{tag} bytes kind=snapshot left={left} n={size} first={Hex.encode ((List.range n).map (w.snap tok.1 tok.2))}"
+      if noFirst then s!"{tag} bytes kind=snapshot left={left} n={size}"
+      else s!"{tag} bytes kind=snapshot left={left} n={size} first={Hex.encode ((List.range n).map (w.snap tok.1 tok.2))}"
     | .none => s!"{tag} bytes kind=none"
-  [qline, mline, ioline, aline, bline]
+  -- outside the theorems' hypotheses only the query API and the decision are compared (what the reader
+  -- finds then depends on how far the writer already got)
+  if sourceWFb src && cacheWFb c then [qline, mline, ioline, aline, bline] else [qline, mline]
 
 def handle : List String → Option (List String)
   | "sync" :: tag :: be :: id1 :: id2 :: sw :: bl :: bf :: blen :: mo :: sl :: capa :: k :: spId :: spOff ::  cRun :: rdbL :: rdbS :: tok :: aofL :: aofR :: sb :: s1 :: s2 :: so :: rest =>
@@ -127,10 +144,12 @@ def handle : List String → Option (List String)
       let rdb := match rdbL, rdbS with | some l, some s => some (l, s) | _, _ => none
       let aof := match aofL, aofR with | some l, some r => some (l, r) | _, _ => none
       let src : Source := ⟨id1, id2, sw, bl == "1", bf, blen, mo, sl, capa == "1"⟩
-      let base := handleSync tag ⟨backend, cRun, rdb, aof⟩ tok src k ⟨spId, spOff⟩ sb s1 s2 so
+      let realSend := match rest with | [_, _, _, "2", _, _, _] => true | _ => false
+      let base := handleSync realSend tag ⟨backend, cRun, rdb, aof⟩ tok src k ⟨spId, spOff⟩ sb s1 s2 so
       -- schedules with the real RedisOutput: the position it holds after the round
+      -- (mode 2: its real Send replayed real streams, the bytes are judged on the target's log)
       match rest with
-      | [_, _, _, "1", resume, done, e] =>
+      | [_, _, _, _, resume, done, e] =>
         let e ← e.toInt?
         let w := world src sb s1 s2 so
         let c : Cache := ⟨backend, cRun, rdb, aof⟩
